@@ -189,6 +189,10 @@ fn run(case: &Case, cx: &mut Cx) -> CaseResult {
         if cx.tier == Tier::Quick {
             reads = scen::thin(&reads, 40);
         }
+        // ... and failing removals / lock writes: a version directory that could not be
+        // removed is still a version, and must keep its blocks
+        let muts: Vec<_> = trace.iter().filter(|l| l.key.verb.mutating()).cloned().collect();
+        reads.extend(scen::thin(&muts, cx.tier.pick(24, 80)));
         for l in reads {
             for kind in [EK::Other, EK::NotFound, EK::PermissionDenied] {
                 let inner = json!({"fault": l.key, "kind": kind});
@@ -202,7 +206,8 @@ fn run(case: &Case, cx: &mut Cx) -> CaseResult {
                 let rr = ops::delete_bands(&w.arch, &hook, &st.requested, false, false);
                 evals += 1;
                 let on_kept_index = l.key.path.contains("/i") && kept_ids.iter().any(|k| l.key.path.starts_with(&format::band_dirname(*k)));
-                if on_kept_index {
+                let on_removal = l.key.verb.mutating();
+                if on_kept_index || on_removal {
                     nontrivial_inner += 1;
                 }
                 let res: CaseResult = (|| {
@@ -210,7 +215,8 @@ fn run(case: &Case, cx: &mut Cx) -> CaseResult {
                         fail!(format!("C05/delete-panic-on-fault@{}", ops::panic_site(p)), "fault {:?} {kind:?}: {p}", l.key);
                     }
                     let class = if on_kept_index { "index-of-kept-band" } else { "other" };
-                    st.kept_versions_restore(cx, &format!("C05/after-read-fault/{class}/kept-version"), &mut n)
+                    let what = if on_removal { "failed-removal" } else { "read-fault" };
+                    st.kept_versions_restore(cx, &format!("C05/after-{what}/{class}/kept-version"), &mut n)
                 })();
                 if let Err(f) = res {
                     cx.inner_failure(f.with_inner(inner))?;
